@@ -548,6 +548,8 @@ impl Check for RunCheck {
 fn run_case<P: Instrumented + Clone + 'static>(c: &RunCase, cfg: ExecResult<Configuration<P>>, problem: P, cl: &mut u64) -> Result<(), Failure> {
     let tpl = c.spec.tpl.name();
     let Ok(cfg) = cfg else { return Ok(()) };
+    // every other run uses a clone of the configuration (a clone describes the same heuristic)
+    let cfg = if c.spec.seed & 2 == 2 { cfg.clone() } else { cfg };
     if c.parallel_threads.is_some() {
         problem.instr().0.jitter.store(1 + c.spec.seed % 3, std::sync::atomic::Ordering::Relaxed);
     }
